@@ -26,6 +26,8 @@ func c12(c *Ctx) {
 		"(typeurl) the type URL put into KeyData/KeyTemplate and the one the parser compares against are the same constant; " +
 		"(fields) a serializer never writes a constant into a proto field that the same package's parser reads back into the key/parameters; " +
 		"(optional) optional sub-messages written conditionally by a serializer (custom kid) are detected by the parser through a nil test of the sub-message, not through its content. " +
+		"(lossless) every scalar getter of a key type's Parameters is read by its parameter and key serializers (written, or pinned by a guard) — state the serializer ignores cannot survive a round trip; " +
+		"(writeerr) the cleartext writers test the keyset material for nil (serialization failure) before handing it to the writer; " +
 		"Not decided: byte-identical re-serialization, big-integer leading zeros, Equal semantics, reader/writer codecs (protobuf library)."
 	c12Inverse(c)
 	c12Keyset(c)
@@ -35,6 +37,8 @@ func c12(c *Ctx) {
 	c12ConstFields(c)
 	c12Canonical(c)
 	c12FieldCopy(c)
+	c12Lossless(c)
+	c12WriteErr(c)
 	idZeroRule(c, "C12.idzero", func(rel string) bool { return rel == "keyset" || strings.HasPrefix(rel, "insecurecleartextkeyset") || strings.HasPrefix(rel, "internal/protoserialization") })
 }
 
